@@ -1648,3 +1648,56 @@ impl<'a> VisitMut for Marker<'a> {
 fn _q() {
     let _ = quote!(a);
 }
+
+/// N14: effect threading. Calls to the designated effectful externals become method calls on an explicit world
+/// parameter `w: &mut World` that is added to the signature; nothing is removed except parameters that only injected
+/// such an effect (e.g. a `rename` closure).
+pub fn thread_effects(sig: &mut syn::Signature, block: &mut Block, w: &str, ty: &str, effects: &[(String, String, String)], n: &mut Norm) {
+    let wid = id(w);
+    struct Eff<'e> { w: Ident, effects: &'e [(String, String, String)], count: usize }
+    impl<'e> VisitMut for Eff<'e> {
+        fn visit_expr_mut(&mut self, e: &mut Expr) {
+            visit_mut::visit_expr_mut(self, e);
+            let w = &self.w;
+            let mut repl: Option<Expr> = None;
+            match e {
+                Expr::Call(c) => {
+                    if let Expr::Path(p) = &*c.func {
+                        let path = p.path.segments.iter().map(|s| s.ident.to_string()).collect::<Vec<_>>().join("::");
+                        for (k, pat, m) in self.effects {
+                            if k == "call" && *pat == path {
+                                let m = id(m);
+                                let args = &c.args;
+                                repl = Some(parse_quote!(#w.#m(#args)));
+                            }
+                        }
+                    }
+                }
+                Expr::MethodCall(mc) => {
+                    for (k, pat, m) in self.effects {
+                        if k == "method" && mc.method == pat.as_str() {
+                            let m = id(m);
+                            let r = &mc.receiver;
+                            let args = &mc.args;
+                            repl = Some(if args.is_empty() { parse_quote!(#w.#m(#r)) } else { parse_quote!(#w.#m(#r, #args)) });
+                        }
+                    }
+                }
+                _ => {}
+            }
+            if let Some(r) = repl { *e = r; self.count += 1; }
+        }
+    }
+    let mut eff = Eff { w: wid.clone(), effects, count: 0 };
+    eff.visit_block_mut(block);
+    // drop injected-effect parameters
+    let drops: Vec<&String> = effects.iter().filter(|(k, _, _)| k == "drop-param").map(|(_, p, _)| p).collect();
+    let kept: Vec<syn::FnArg> = sig.inputs.iter().filter(|a| match a {
+        syn::FnArg::Typed(t) => match &*t.pat { Pat::Ident(pi) => !drops.iter().any(|d| pi.ident == d.as_str()), _ => true },
+        _ => true,
+    }).cloned().collect();
+    sig.inputs = kept.into_iter().collect();
+    let ty: syn::Type = syn::parse_str(ty).expect("effect-param type");
+    sig.inputs.push(parse_quote!(#wid: &mut #ty));
+    n.rules.push(RuleApp { rule: "N14".into(), line: 0, note: format!("{} effectful call(s) threaded through `{w}: &mut World`; dropped params: {:?}", eff.count, drops) });
+}
